@@ -346,6 +346,66 @@ def decision_table(t: Term, limit: int = 64) -> Optional[List[Tuple[frozenset, T
     return sorted(out, key=lambda r: (sorted(key(x) for x in r[0]), key(r[1])))
 
 
+def _atoms_of(t: Term, acc: Dict[Term, int]) -> None:
+    from .terms import mk_not
+    if t[0] in ("and", "or"):
+        for x in t[1]:
+            _atoms_of(x, acc)
+    elif t[0] == "not":
+        _atoms_of(t[1], acc)
+    elif t[0] == "c" and isinstance(t[1], bool):
+        pass
+    else:
+        n = mk_not(t)
+        if t not in acc and n not in acc:
+            acc[t] = len(acc)
+
+
+def _eval_cond(t: Term, acc: Dict[Term, int], bits: int) -> bool:
+    from .terms import mk_not
+    if t[0] == "and":
+        return all(_eval_cond(x, acc, bits) for x in t[1])
+    if t[0] == "or":
+        return any(_eval_cond(x, acc, bits) for x in t[1])
+    if t[0] == "not":
+        return not _eval_cond(t[1], acc, bits)
+    if t[0] == "c" and isinstance(t[1], bool):
+        return t[1]
+    if t in acc:
+        return bool(bits >> acc[t] & 1)
+    return not (bits >> acc[mk_not(t)] & 1)
+
+
+def tables_equivalent(a: List[Tuple[frozenset, Term]], b: List[Tuple[frozenset, Term]], max_atoms: int = 14) -> bool:
+    """two decision tables denote the same function of their (uninterpreted) atomic conditions: checked on the full truth table.
+    Atoms are treated as independent, so `True` is sound; a `False` may only mean the atoms are related."""
+    acc: Dict[Term, int] = {}
+    for tab in (a, b):
+        for conds, _ in tab:
+            for c in conds:
+                _atoms_of(c, acc)
+    if len(acc) > max_atoms:
+        return False
+    for bits in range(1 << len(acc)):
+        va = {v for conds, v in a if all(_eval_cond(c, acc, bits) for c in conds)}
+        vb = {v for conds, v in b if all(_eval_cond(c, acc, bits) for c in conds)}
+        if va != vb:
+            return False
+    return True
+
+
+def same_value(got: Term, want: Term) -> bool:
+    """equal terms, or conditional terms with the same decision table (up to propositional equivalence of the conditions)"""
+    from .terms import untag
+    got, want = untag(got), untag(want)
+    if got == want:
+        return True
+    a, b = decision_table(got), decision_table(want)
+    if a is None or b is None:
+        return False
+    return a == b or tables_equivalent(a, b)
+
+
 def function_value(summ: Summary) -> Optional[Term]:
     """all own returns folded into one conditional term, in program order"""
     from .terms import Norm
@@ -376,4 +436,4 @@ def same_function(summ: Summary, want: Term) -> bool:
     if any(r.loops for r in summ.returns()):
         return False
     a, b = decision_table(got), decision_table(want)
-    return a is not None and a == b
+    return a is not None and b is not None and (a == b or tables_equivalent(a, b))
